@@ -2,7 +2,7 @@
 import ast
 
 from ..engine import rule, Ctx
-from ..core import UNKNOWN, dotted, kwarg, has_star_kwargs, assigned_names, body_nodes, inline, walk_no_nested, stmt_key
+from ..core import UNKNOWN, dotted, kwarg, has_star_kwargs, assigned_names, body_nodes, inline, walk_no_nested, stmt_key, canon
 from . import common
 
 PROP = "C01"
